@@ -316,7 +316,7 @@ Section Decision.
     induction reqs as [|r reqs IH]; intros s; cbn [ult_reqs]; [apply Calm_refl|].
     destruct (get_unit (units s) (ur_target r)) as [u|]; [|apply Calm_refl].
     destruct (negb (uchar u)); [apply Calm_refl|].
-    destruct (PrimFloat.eqb _ 1); [|apply IH].
+    destruct (can_ult u); [|apply IH].
     set (m0 := enqueue s PRIO_CHAR_ACTION (ur_target r) [FLAG_STAT_CTRL; FLAG_DISABLE_ACTION] (KUlt r)).
     set (m := set_energy m0 (ur_target r) 0).
     assert (E : Calm s m) by (apply Calm_trans with m0; [apply Calm_plain; reflexivity|apply Calm_Qd, Qd_set_energy]).
@@ -422,7 +422,7 @@ Section Decision.
     destruct (uchar u) eqn:CU.
     - destruct (pop_next (next_q s) id) as [d q] eqn:EN.
       set (s1 := emit (set_next s q) [VNextAction id (dc_type d) (dc_eval d)]) in *.
-      destruct ((dc_type d =? 1) && negb (uspneed u <=? sp s1)) eqn:ED.
+      destruct ((dc_type d =? 1) && negb (can_skill u s1)) eqn:ED.
       + (* the skill is not affordable: the default attack *)
         apply andb_prop in ED. destruct ED as [ET _].
         set (s2 := emit s1 [VDefaultAction id]) in *.
@@ -907,8 +907,8 @@ Qed.
    the second enemy is damaged and is chosen by LowestHP and by LowestHPRatio *)
 Definition demo_cfg11 : config :=
   mkCfg
-    [mkUD 0 true 100 1000 100 0 1 1 TEnemies TEnemies TEnemies [0%nat; 0%nat; 0%nat];
-     mkUD 100 false 50 500 0 0 0 0 TEnemies TEnemies TEnemies [];
-     mkUD 100 false 50 500 0 0 0 0 TEnemies TEnemies TEnemies []]
+    [mkUD 0 true 100 1000 100 0 1 1 TEnemies TEnemies TEnemies [0%nat; 0%nat; 0%nat] [] [];
+     mkUD 100 false 50 500 0 0 0 0 TEnemies TEnemies TEnemies [] [] [];
+     mkUD 100 false 50 500 0 0 0 0 TEnemies TEnemies TEnemies [] [] []]
     [[SAttack 3 [TId 3] true 10]]
     [(1, [mkDec 0 101; mkDec 0 101; mkDec 0 102])] [] [] [] [] [] [] [] [] [] 3 4.
